@@ -59,7 +59,9 @@ def strategy(ctx):
                               draw(st.sampled_from(['ret', 'ret', 'raise']))])
             threads.append(calls)
         impl = draw(st.sampled_from(['py', 'py', 'py', 'c', 'cmod']))
-        if draw(st.booleans()):
+        if impl != 'py' and draw(st.booleans()):
+            sched = {'kind': 'macro', 'picks': draw(st.lists(st.integers(0, nthreads - 1), min_size=2, max_size=12))}
+        elif draw(st.booleans()):
             sched = {'kind': 'random', 'picks': draw(st.lists(st.integers(0, 5), max_size=150))}
         else:
             sched = {'kind': 'preempt',
@@ -226,7 +228,7 @@ class SimLock(object):
 
 
 def make_policy(sched_desc, nthreads):
-    if sched_desc['kind'] == 'random':
+    if sched_desc['kind'] in ('random', 'macro'):
         picks = sched_desc['picks']
 
         def policy(step, runnable, last):
@@ -332,23 +334,37 @@ def run_python_leg(case, ctx):
 
 # ------------------------------------------------------------------ C FFI leg
 
+def _thread_sleeping(native_id):
+    """True iff the OS thread is in state S (sleeping): used to tell "blocked in the C
+    lock" from "still running towards its next gate"."""
+    try:
+        with open('/proc/self/task/%d/stat' % native_id) as f:
+            st_ = f.read()
+        return st_[st_.rindex(')') + 2] == 'S'
+    except (OSError, ValueError, IndexError):
+        return False
+
+
 class Gates(object):
     """Threads stop at gates; the driver opens one thread's gate at a time and
-    waits until that thread parks at its next gate, finishes, or `grace` passes
-    (then it is taken to be blocked in the C lock)."""
+    waits until that thread parks at its next gate, finishes, or is seen sleeping
+    outside a gate (then it is taken to be blocked in the C lock).  A wrong guess
+    only changes which interleaving is explored, never the verdict."""
 
     def __init__(self, nthreads, grace):
         self.cv = threading.Condition()
         self.parked = dict((t, False) for t in range(nthreads))
+        self.where = dict((t, None) for t in range(nthreads))
         self.tokens = dict((t, 0) for t in range(nthreads))
         self.done = dict((t, False) for t in range(nthreads))
+        self.native = dict((t, None) for t in range(nthreads))
         self.free_run = False
         self.local = threading.local()
         self.events = []
         self.grace = grace
         self.progress = 0
 
-    def gate(self):
+    def gate(self, kind='hash'):
         tid = getattr(self.local, 'tid', None)
         if tid is None:
             return
@@ -357,6 +373,7 @@ class Gates(object):
             if self.free_run:
                 return
             self.parked[tid] = True
+            self.where[tid] = kind
             self.cv.notify_all()
             while self.tokens[tid] == 0 and not self.free_run:
                 self.cv.wait()
@@ -365,22 +382,45 @@ class Gates(object):
             self.parked[tid] = False
 
     def open(self, tid):
+        """-> 'parked' | 'done' | 'blocked' | 'noop'"""
         with self.cv:
             if self.done[tid]:
-                return
+                return 'noop'
             if not self.parked[tid]:
-                return          # blocked inside C (lock) or still running: nothing to open
+                return 'noop'     # blocked inside C (lock) or still running: nothing to open
             self.tokens[tid] += 1
             self.cv.notify_all()
             end = time.time() + self.grace
-            # wait until it consumed the token and parked again / finished
+            sleeping = 0
+            # wait until it consumed the token and parked again / finished / blocks in C
             while True:
-                if self.done[tid] or (self.tokens[tid] == 0 and self.parked[tid]):
+                if self.done[tid]:
+                    return 'done'
+                if self.tokens[tid] == 0 and self.parked[tid]:
+                    return 'parked'
+                if time.time() >= end:
+                    return 'blocked'
+                self.cv.wait(0.001)        # releases the GIL: the thread can run if it is able to
+                if self.tokens[tid] == 0 and not self.parked[tid] and not self.done[tid] \
+                        and self.native[tid] and _thread_sleeping(self.native[tid]):
+                    sleeping += 1
+                    if sleeping >= 3:
+                        return 'blocked'
+                else:
+                    sleeping = 0
+
+    def advance(self, tid):
+        """macro step: let the thread run until it is inside an initialiser, blocked, or done"""
+        first = True
+        for _ in range(40):
+            with self.cv:
+                if self.done[tid] or not self.parked[tid]:
                     return
-                left = end - time.time()
-                if left <= 0:
+                if self.where[tid] == 'f' and not first:
                     return
-                self.cv.wait(left)
+            first = False
+            if self.open(tid) != 'parked':
+                return
 
 
 class GatedTag(object):
@@ -404,23 +444,24 @@ def run_c_leg(case, ctx, use_module):
     else:
         ffi = _cffi_backend.FFI()
     nthreads = len(case['threads'])
-    g = Gates(nthreads, 0.05)
+    g = Gates(nthreads, 0.25)
     tags = {}
 
     def body(tid, calls):
         g.local.tid = tid
+        g.native[tid] = threading.get_native_id()
         try:
             for ci, (tag, beh) in enumerate(calls):
                 def f(tid=tid, ci=ci, tag=tag, beh=beh):
                     g.events.append(('f_start', tid, ci, tag, None))
-                    g.gate()
+                    g.gate('f')
                     if beh == 'raise':
                         g.events.append(('f_raise', tid, ci, tag, None))
                         raise InitErr('%d.%d' % (tid, ci))
                     val = 'v%d.%d' % (tid, ci)
                     g.events.append(('f_end', tid, ci, tag, val))
                     return val
-                g.gate()
+                g.gate('call')
                 g.events.append(('call_begin', tid, ci, tag, None))
                 try:
                     r = ffi.init_once(f, GatedTag(tag, g))
@@ -449,17 +490,24 @@ def run_c_leg(case, ctx, use_module):
             if time.time() > end:
                 raise HarnessError('C leg: threads did not reach their first gate')
     sd = case['sched']
+    # steps: (thread, 'adv' = run until inside an initialiser / blocked / done; 'gate' = one gate)
     if sd['kind'] == 'random':
-        picks = [p % nthreads for p in sd['picks'][:60]]
+        steps = [(p % nthreads, 'adv' if (p // nthreads) % 2 == 0 else 'gate') for p in sd['picks'][:60]]
+    elif sd['kind'] == 'macro':
+        steps = [(t % nthreads, 'adv') for t in sd['picks']]
     else:
         order = [o % nthreads for o in sd['order']]
-        picks, pos, prev = [], 0, 0
+        steps, pos, prev = [], 0, 0
         for sw in sd['switch_at'] + [sd['switch_at'][-1] + 8 if sd['switch_at'] else 8]:
-            picks += [order[pos % len(order)]] * max(1, min(12, sw - prev))
+            steps += [(order[pos % len(order)], 'gate')] * max(1, min(12, sw - prev))
             prev = sw
             pos += 1
-    for tid in picks:
-        g.open(tid)
+    picks = steps
+    for tid, kind in steps:
+        if kind == 'adv':
+            g.advance(tid)
+        else:
+            g.open(tid)
         if all(g.done.values()):
             break
     with g.cv:
@@ -537,5 +585,22 @@ def pre(ctx):
                         raise
                     n += 1
     ctx.extra['enumerated_preemption_bounded_schedules'] = n
+    # C FFI: all macro-step schedules (first step = thread 0) of length L over 3 threads x 1 call x
+    # 1 tag, for every ok/raise combination with at least one raise
+    L = 5 if ctx.tier == 'quick' else 7
+    m = 0
+    for behs in itertools.product(['ret', 'raise'], repeat=3):
+        if 'raise' not in behs:
+            continue
+        threads = [[[0, b]] for b in behs]
+        for rest in itertools.product(range(3), repeat=L - 1):
+            case = {'impl': 'c', 'threads': threads, 'sched': {'kind': 'macro', 'picks': [0] + list(rest)}}
+            try:
+                prop(case, ctx)
+            except Violation as v:
+                v.detail['case'] = case
+                raise
+            m += 1
+    ctx.extra['enumerated_c_macro_schedules'] = m
     ctx.extra['enumeration'] = ('2 threads x 1 call x 1 tag x {ret,raise}^2 x first thread x all switch-point sets '
                                 'of size <= %d over the first %d schedule points' % (maxpre, horizon))
